@@ -87,7 +87,13 @@ func (c18Engine) Gen(job *Job) *Case {
 			}
 		} else {
 			pi := r.Intn(np)
-			tp.Ops = append(tp.Ops, TaskOp{Kind: "build", Proj: pi})
+			bop := TaskOp{Kind: "build", Proj: pi}
+			if r.Chance(1, 5) {
+				// this task's build bans a directive kind; the others must not notice
+				kw := []string{"MACRO", "PASTE", "TAG", "ENUM", "Description", "Query", "SERVER", "Headers", "INFO"}
+				bop.Banned = []string{kw[r.Intn(len(kw))]}
+			}
+			tp.Ops = append(tp.Ops, bop)
 			for i := 0; i < r.Range(0, 3); i++ {
 				tp.Ops = append(tp.Ops, TaskOp{Kind: "call", Proj: pi, Op: accessors[r.Intn(len(accessors))]})
 			}
@@ -192,7 +198,7 @@ func runConc(c *Case, pool simrt.PoolConfig) *concObs {
 			for i, op := range cc.Tasks[t].Ops {
 				switch op.Kind {
 				case "build":
-					own = BuildPath(filepath.Join(c18Dir(op.Proj), cc.Projects[op.Proj].Root))
+					own = BuildPath(filepath.Join(c18Dir(op.Proj), cc.Projects[op.Proj].Root), op.Banned...)
 					obs.results[t][i] = "build: " + own.Text()
 					obs.shorts[t][i] = "build: " + own.Class()
 				case "call":
@@ -247,33 +253,67 @@ func (c18Engine) Exec(c *Case, job *Job) *Result {
 	// sequential references (skipped in a cold-start child: the reference pass would warm the
 	// package-level state; there the references are computed AFTER the concurrent run)
 	refs := map[string]string{}
-	// only the (project, accessor) pairs the task programs use need a reference
+	// References: for every (project, banned set) a task builds with, the build outcome; for every
+	// accessor a task calls, the FIRST call on a fresh instance built the same way.
+	type variant struct {
+		proj   int
+		banned []string
+	}
+	var variants []variant
+	seenVar := map[string]bool{}
+	addVar := func(pi int, banned []string) {
+		k := fmt.Sprintf("%d|%s", pi, strings.Join(banned, ","))
+		if !seenVar[k] {
+			seenVar[k] = true
+			variants = append(variants, variant{pi, banned})
+		}
+	}
 	needed := map[string]bool{}
-	for _, tp := range cc.Tasks {
+	taskBanned := make([][]string, len(cc.Tasks))
+	for t, tp := range cc.Tasks {
+		for _, op := range tp.Ops {
+			if op.Kind == "build" {
+				taskBanned[t] = op.Banned
+				addVar(op.Proj, op.Banned)
+			}
+		}
 		for _, op := range tp.Ops {
 			if op.Kind == "call" {
-				needed[fmt.Sprintf("%d:%s", op.Proj, op.Op)] = true
+				b := taskBanned[t]
+				if op.Shared {
+					b = nil
+				}
+				addVar(op.Proj, b)
+				needed[fmt.Sprintf("%d|%s:%s", op.Proj, strings.Join(b, ","), op.Op)] = true
 			}
 		}
 	}
+	for _, pi := range cc.Shared {
+		addVar(pi, nil)
+	}
 	computeRefs := func() bool {
-		for i, p := range cc.Projects {
-			o := BuildPath(filepath.Join(c18Dir(i), p.Root))
-			refs[fmt.Sprintf("%d:build", i)] = "build: " + o.Text()
+		for _, v := range variants {
+			vk := fmt.Sprintf("%d|%s", v.proj, strings.Join(v.banned, ","))
+			p := cc.Projects[v.proj]
+			o := BuildPath(filepath.Join(c18Dir(v.proj), p.Root), v.banned...)
+			refs[vk+":build"] = "build: " + o.Text()
 			if !o.OK {
-				return false
+				if len(v.banned) == 0 {
+					return false // the project itself is rejected: nothing to serialise
+				}
+				continue
 			}
 			first := true
 			for _, op := range accessors {
-				if !needed[fmt.Sprintf("%d:%s", i, op)] {
+				if !needed[vk+":"+op] {
 					continue
 				}
 				fo := o
 				if !first {
-					fo = BuildPath(filepath.Join(c18Dir(i), p.Root)) // every reference is a FIRST call on a fresh instance
+					fo = BuildPath(filepath.Join(c18Dir(v.proj), p.Root), v.banned...)
 				}
 				first = false
-				refs[fmt.Sprintf("%d:%s", i, op)] = op + ": " + call(fo.japi, op).Text()
+				refs[vk+":"+op] = op + ": " + call(fo.japi, op).Text()
 			}
 		}
 		return true
@@ -343,11 +383,19 @@ func (c18Engine) Exec(c *Case, job *Job) *Result {
 	if class == "" {
 		for t, tp := range cc.Tasks {
 			for i, op := range tp.Ops {
-				key := fmt.Sprintf("%d:%s", op.Proj, op.Op)
-				if op.Kind == "build" {
-					key = fmt.Sprintf("%d:build", op.Proj)
+				b := taskBanned[t]
+				if op.Shared {
+					b = nil
 				}
-				want := refs[key]
+				vk := fmt.Sprintf("%d|%s", op.Proj, strings.Join(b, ","))
+				key := vk + ":" + op.Op
+				if op.Kind == "build" {
+					key = fmt.Sprintf("%d|%s:build", op.Proj, strings.Join(op.Banned, ","))
+				}
+				want, have := refs[key]
+				if !have {
+					want = "no catalog" // the task's own build is rejected (banned directive): nothing to call
+				}
 				got := obs.results[t][i]
 				if got != want {
 					what := op.Kind + " " + op.Op
